@@ -90,7 +90,7 @@ def interpret_join(ctx, cls, ps, join_type):
                cte=None, mode=None, using=None, alias=None, parentheses=False)
     stubs = {'sa.select': lambda it, *c: query, 'self.to_expression': lambda it, t: ('expr', id(t)), 'self.to_table': lambda it, t: ('table', t.parts[-1]),
              'sa.text': lambda it, t: ('text', t), 'self.get_alias': lambda it, x: x}
-    it = Interp({'Join': set(), 'Select': set(), 'Identifier': set(), 'Union': set(), 'Intersect': set(), 'Except': set(), 'NativeQuery': set()}, stubs, methods=methods)
+    it = Interp.for_file(ctx.src, FILE, {'Join': set(), 'Select': set(), 'Identifier': set(), 'Union': set(), 'Intersect': set(), 'Except': set(), 'NativeQuery': set()}, stubs, methods=methods)
     out = {}
     try:
         it.call_function(ps, [Obj('SqlalchemyRender'), node], {}, Env())
@@ -132,7 +132,7 @@ def clause_table(ctx, cls, ps):
                    offset=C(offset) if offset is not None else None, cte=None, mode=mode, using=None, alias=None, parentheses=False)
         stubs = {'sa.select': lambda it, *c: query, 'self.to_expression': lambda it, t: ('expr', getattr(t, 'tag', None) if isinstance(t, Obj) and 'tag' in t.attrs else id(t)),
                  'self.to_table': lambda it, t: ('table', 't'), 'self.to_order_by': lambda it, o: [('order', x.tag) for x in o], 'self.get_alias': lambda it, x: x}
-        it = Interp({'Join': set(), 'Select': set(), 'Identifier': set(), 'Union': set(), 'Intersect': set(), 'Except': set(), 'NativeQuery': set()}, stubs, methods=methods)
+        it = Interp.for_file(ctx.src, FILE, {'Join': set(), 'Select': set(), 'Identifier': set(), 'Union': set(), 'Intersect': set(), 'Except': set(), 'NativeQuery': set()}, stubs, methods=methods)
         label = f'limit={limit} offset={offset} distinct={distinct} where={bool(where)} group_by={bool(group)} having={bool(having)} order_by={bool(order)} mode={mode}'
         try:
             it.call_function(ps, [Obj('SqlalchemyRender'), node], {}, Env())
